@@ -276,28 +276,53 @@ fn run_discipline(ctx: &Ctx, rep: &mut Report) {
             }
         }
         // the same handle operations on their *error* paths: every underlying call fails
-        for p in streams.iter().take(4) {
+        let mut poisoned = false;
+        for (k, p) in streams.iter().cycle().take(10).enumerate() {
+            // a fresh (clean) handle per script, so that each operation reaches its own I/O
+            // instead of failing in the write-back of an earlier one
             if let Ok(mut s) = cf.open_stream(p) {
-                _sh.arm(vec![crate::backend::Fault { kinds: crate::backend::K_READ | crate::backend::K_WRITE | crate::backend::K_SEEK | crate::backend::K_FLUSH, k: 0, err: std::io::ErrorKind::Other, sticky: true, partial: false }]);
+                _sh.arm(vec![crate::backend::Fault { kinds: crate::backend::K_READ | crate::backend::K_WRITE | crate::backend::K_SEEK | crate::backend::K_FLUSH, k: (k as u64 / 5) * 3, err: std::io::ErrorKind::Other, sticky: true, partial: false }]);
                 let r = crate::guard::catch(|| {
                     let mut buf = [0u8; 100];
-                    let _ = s.read(&mut buf);
-                    let _ = s.write(&[1, 2, 3]);
-                    let _ = s.flush();
-                    let _ = s.set_len(5000);
-                    let _ = s.set_len(10);
-                    let _ = s.seek(SeekFrom::Start(0));
-                    let _ = s.write(&[7u8; 2000]);
-                    let _ = s.seek(SeekFrom::End(0));
-                    let _ = s.flush();
+                    match k % 5 {
+                        0 => {
+                            let _ = s.set_len(5000);
+                        }
+                        1 => {
+                            let _ = s.set_len(3);
+                        }
+                        2 => {
+                            let _ = s.read(&mut buf);
+                            let _ = s.seek(SeekFrom::End(0));
+                        }
+                        3 => {
+                            let _ = s.write(&[1, 2, 3]);
+                            let _ = s.flush();
+                            let _ = s.flush();
+                        }
+                        _ => {
+                            let _ = s.write(&[7u8; 2000]);
+                            let _ = s.seek(SeekFrom::Start(0));
+                            let _ = s.read(&mut buf);
+                            let _ = s.set_len(0);
+                        }
+                    }
                 });
                 _sh.disarm();
-                if let Err(pinfo) = r {
-                    rep.finding(format!("lock discipline | {}", crate::guard::strip_numbers(&pinfo.message)), format!("on an error path (every underlying call failing): {}", pinfo.message), ctx.witness(0, vec![("monitor", J::s("M1 lock-discipline, error paths"))]));
-                }
                 std::mem::forget(s); // its Drop would write back into the failing store
                 rep.count("m1.error_path_scripts");
+                if let Err(pinfo) = r {
+                    rep.finding(format!("lock discipline | {}", crate::guard::strip_numbers(&pinfo.message)), format!("on an error path (underlying calls failing): {}", pinfo.message), ctx.witness(0, vec![("monitor", J::s("M1 lock-discipline, error paths"))]));
+                    // the guard was held when the observer unwound: the lock is poisoned now
+                    poisoned = true;
+                    break;
+                }
             }
+        }
+        if poisoned {
+            std::mem::forget(cf);
+            rep.evaluations += 1;
+            continue;
         }
         // iterators interleaved: two live iterators, partially consumed
         let mut a = cf.walk();
